@@ -31,7 +31,7 @@ def closure_of(m, kind, k):
             args.append({'vals': [str(i) for i in range(a.get('n', 0) // 4)], 'extra': a.get('n', 0) % 4})
         elif t == 'nil':
             sig += ['?', 'o']
-            ty = a.get('type', '')
+            ty = a.get('decl', a.get('type', ''))
             args.append({'null': True, 'id': '0', 'otype': ty or 'wl_display'})
         elif t == 'obj':
             sig.append('o')
